@@ -191,6 +191,10 @@ Universe_Runs ==
      lin \in {"none", "ub", "eq"}, nl \in {"none", "nlc_ub", "nlc_eq", "vector"},
      opt \in {"default", "filter1", "filter2", "npt_min", "npt_max"}}
   \cup SocRich({"default", "filter2", "npt_max"}, {NoCb})
+  \cup  \* starts close to (not on) a bound: the base point is moved, the start is not a sample
+  {D(n, Const(n, bpk), x0, sc, obj, NoFault, "none", nl, "Bounds", opt, NoCb) :
+     n \in {1, 2, 3}, bpk \in {"wide", "lower", "upper"}, x0 \in {"nearlower", "nearupper"}, sc \in BOOLEAN,
+     obj \in {"quad", "rosen"}, nl \in {"none", "nlc_ub"}, opt \in {"default", "npt_min", "npt_max"}}
   \cup  \* radius options and radius-management constants over their documented domains
   {D(n, Const(n, bpk), x0, sc, obj, NoFault, lin, nl, "Bounds", opt, NoCb) :
      n \in {1, 2}, bpk \in {"free", "wide", "narrow"}, x0 \in {"inside"}, sc \in BOOLEAN,
